@@ -10,7 +10,14 @@
 #include "xrelay.h"
 
 /* Administrative limit */
+#ifdef ERICSSON_XCM_VERIF
+/* verification hook (off unless ERICSSON_XCM_VERIF is defined): the
+   limit as a run-time knob, so that a simulated run can reach it */
+extern int ericsson_xcm_verif_max_relays;
+#define MAX_RELAYS ericsson_xcm_verif_max_relays
+#else
 #define MAX_RELAYS 10000
+#endif
 
 struct rserver
 {
